@@ -36,6 +36,7 @@ import numpy as np
 
 from mc import families as F
 from mc import gf2
+from mc import session
 
 PROPERTY = 'C13'
 LEVEL = 'exploration'
@@ -115,7 +116,8 @@ _DIM = {'Toric2DCode': 2, 'Planar2DCode': 2, 'RotatedPlanar2DCode': 2, 'Toric3DC
 DEC_FORMS = ['absent', 'empty', 'dict', 'list1', 'list2']
 RATE_FORMS = [('scalar', 1), ('list', 1), ('list', 2), ('list', 3), ('scalar-zero', 1), ('list-zero', 2)]
 _ZERO_RATES = {1: [0], 2: [0.0, 0.1]}     # a zero rate is falsy: must still be one requested rate
-FORM_COUNTS = [('dict', 1), ('list', 1), ('poslist', 1), ('list', 2), ('poslist', 2), ('list', 3), ('poslist', 3)]
+FORM_COUNTS = [('dict', 1), ('list', 1), ('poslist', 1), ('list', 2), ('poslist', 2), ('list', 3), ('poslist', 3),
+               ('rlist', 3), ('rlist', 2)]
 
 # roundtrip part
 _RT_NOISE = [{'r_x': 1, 'r_y': 0, 'r_z': 0},
@@ -284,6 +286,10 @@ def _elems(sets, form, count, keys):
         return chosen[0], [chosen[0]]
     if form == 'list':
         return list(chosen), list(chosen)
+    if form == 'rlist':
+        # the same parameter sets with their keywords written in the opposite order (a dict is a dict:
+        # the order in which a JSON file lists the keywords carries no meaning)
+        return [dict(reversed(list(d.items()))) for d in chosen], list(chosen)
     pos = [_positional(d, keys) for d in chosen]
     return pos, pos
 
@@ -413,10 +419,23 @@ def cases(tier, seed):
     ex.sort(key=lambda c: (c['n_code'] * c['n_noise'], c['family'], b['containers'].index(c['container']),
                            c['n_code'], c['code_form'], c['noise_form']))
     out += ex
+    # sessions: specs in different parameter forms parsed one after the other in ONE process
+    for fi in range(b['families']):
+        # (an asymmetric subset of the sizes after the full set: a mix-up between two sizes of the full
+        # set is a permutation and leaves the multiset of a 3-size spec unchanged)
+        seq = [{'part': 'expand', 'family': fi, 'container': 'ranges', 'code_form': cf, 'n_code': nc,
+                'noise_form': nf, 'n_noise': nn}
+               for cf, nc, nf, nn in (('list', 3, 'list', 3), ('rlist', 2, 'rlist', 2), ('poslist', 3, 'poslist', 3),
+                                      ('rlist', 3, 'list', 2), ('list', 2, 'rlist', 3))]
+        out.append({'part': 'session', 'cases': seq})
     return out
 
 
 def eval_case(case):
+    if case['part'] == 'session':
+        return session.run(case['cases'], eval_case,
+                           lambda c: 'expand family=%s code_form=%s noise_form=%s' % (
+                               c['family'], c['code_form'], c['noise_form']))
     if case['part'] == 'registry':
         return eval_registry(case)
     if case['part'] == 'roundtrip':
@@ -866,7 +885,7 @@ def eval_expand(case):
             spec, product, ranges = build_spec(fam, case['container'], case['code_form'], case['n_code'],
                                                case['noise_form'], case['n_noise'], dec_form, rate_form,
                                                n_rates)
-            text = json.dumps(spec, sort_keys=True)
+            text = json.dumps(spec)             # keyword order as written (it is part of the form axis)
             dg = _digest(text)
             digests.add(dg)
             expected = collections.Counter(ref_observation(*t) for t in product)
